@@ -199,6 +199,15 @@ async def async_connect(transport):
 class AsyncTCPMySensorsProtocol(BaseMySensorsProtocol, asyncio.Protocol):
     """Async TCP protocol class."""
 
+    def eof_received(self):
+        """Handle that the gateway closed the connection.
+
+        The transport will close and report the connection as lost without an
+        error. The user did not ask for that, so reconnect.
+        """
+        _LOGGER.info("Connection closed by %s", self.transport)
+        self.conn_lost_callback()
+
     def connection_lost(self, exc):
         """Handle lost connection."""
         _LOGGER.debug("Connection lost with %s", self.transport)
